@@ -371,23 +371,40 @@ def line_line(rep, F):
 
 
 def point_kernel(rep, F, rule="R7.7"):
-    """The innermost kernel of every Euclidean length / distance: |p - q| computed as hypot(dx, dy) of the coordinate differences (a plain
-    sqrt(dx*dx + dy*dy) overflows to infinity or underflows to zero for extreme magnitudes, which breaks `within rounding tolerance`)."""
-    from .c01 import opaque
-    from ..symex import bare
-    rep.rule(rule, "Euclidean distance(Coord, Coord) = hypot(dx, dy) of the coordinate differences")
+    """The innermost kernel of every Euclidean length / distance, |p - q|, on witnesses at ordinary, huge (2^600) and tiny (2^-600) magnitudes,
+    numeric evaluation of the extracted table in doubles: a 3-4-5 configuration scaled by f has length 5f exactly.  (A plain
+    sqrt(dx*dx + dy*dy) overflows to infinity / underflows to zero there, which breaks `within rounding tolerance` and makes lengths and
+    centroids inf / NaN; the earlier form of this rule matched the call `hypot(dx, dy)` textually.)"""
+    from ..numeval import NumEval
+    from ..evalterm import NoModel
+    rep.rule(rule, "Euclidean distance(Coord, Coord) on 3-4-5 witnesses at scale 1, 2^600 and 2^-600 (and mixed signs): exactly 5 * scale - no overflow or underflow of intermediate squares")
     fs = F.find(r"Distance<F, .*coord::Coord<F>, .*coord::Coord<F>> for .*Euclidean>::distance$", crates=("geo",))
     if len(fs) != 1:
         rep.bad(rule, "point-kernel:anchor", "%d Coord-Coord distance impls" % len(fs))
         return
-    rets = [bare(p.ret) for p in opaque(F).run(fs[0]) if p.kind == "ret"]
-    ok_forms = (r"^hypot\(sub\(a2, a3\)\.x, sub\(a2, a3\)\.y\)$", r"^hypot\(sub\(a3, a2\)\.x, sub\(a3, a2\)\.y\)$",
-                r"^hypot\(sub\(a[23]\.x, a[23]\.x\), sub\(a[23]\.y, a[23]\.y\)\)$", r"^hypot\(sub\(a2, a3\)\.y, sub\(a2, a3\)\.x\)$")
-    if len(rets) == 1 and any(re.match(f, rets[0]) for f in ok_forms):
-        rep.ok(rule, "point-kernel:hypot")
+    fn = fs[0]
+    try:
+        paths = [p for p in Symex(F, inline_crates=("geo", "geo_types"), max_depth=10).run(fn) if p.kind != "cut"]
+        bad = None
+        for f_ in (1.0, 2.0 ** 600, 2.0 ** -600, 1e150, 1e-170):
+            for (ax, ay), (bx, by) in (((0.0, 0.0), (3.0, 4.0)), ((-3.0, 4.0), (0.0, 0.0)), ((1.0, -2.0), (-2.0, 2.0)), ((5.0, 5.0), (5.0, 5.0))):
+                a = {"x": ax * f_, "y": ay * f_}
+                b = {"x": bx * f_, "y": by * f_}
+                ev = NumEval(F, {("arg", 2): a, ("arg", 3): b})
+                hit = ev.select_path(paths)
+                got = [float(ev.ev(h.ret)) for h in hit if h.kind == "ret"]
+                want = 0.0 if a == b else 5.0 * f_
+                if len(got) != 1 or not (abs(got[0] - want) <= 1e-12 * want):
+                    bad = "distance(%s, %s) evaluates to %s in doubles, the exact distance is %r" % ((a["x"], a["y"]), (b["x"], b["y"]), got, want)
+                    break
+            if bad:
+                break
+    except (Unanalysable, NoModel, TypeError, KeyError, ValueError, OverflowError) as e:
+        bad = "cannot be evaluated: %s" % e
+    if bad:
+        rep.bad(rule, "point-kernel", bad, where=fn.loc())
     else:
-        rep.bad(rule, "point-kernel", "distance(Coord, Coord) is %s, expected hypot(dx, dy): squaring the differences first overflows / underflows for coordinates of extreme magnitude, so lengths "
-                "become inf or 0" % rets[:2], where=fs[0].loc())
+        rep.ok(rule, "point-kernel[20 witnesses, scales 1 / 2^600 / 2^-600 / 1e150 / 1e-170]")
 
 
 def small_pair_tables(rep, F, rule="R7.8", only=None):
@@ -486,6 +503,28 @@ def small_pair_tables(rep, F, rule="R7.8", only=None):
                     break
             if bad:
                 break
+        if not bad and sorted(ks) in (["Coord", "Line"], ["Line", "Point"]):
+            # the same kernel far from the origin: a small configuration translated by (1e15, 2e15), where one unit in the last place is
+            # 0.125 / 0.25 - the distance must come out of the coordinate DIFFERENCES (exact there), not of a nearest point rebuilt at that
+            # magnitude.  Reference: the untranslated configuration.
+            ox, oy = 1.0e15, 2.0e15
+            for (px, py), (sx, sy), (ex_, ey) in (((26.0, 3.5), (0.0, 0.0), (100.0, 13.0)), ((-8.0, 1.5), (0.0, 0.0), (100.0, 13.0)), ((120.0, 17.5), (0.0, 0.0), (100.0, 13.0)),
+                                                   ((3.0, 40.25), (0.0, 0.0), (0.0, 64.0)), ((5.0, 5.0), (2.0, 2.0), (2.0, 2.0))):
+                pt = {"x": ox + px, "y": oy + py}
+                ln = {"start": {"x": ox + sx, "y": oy + sy}, "end": {"x": ox + ex_, "y": oy + ey}}
+                want = seg_dist({"x": px, "y": py}, {"x": sx, "y": sy}, {"x": ex_, "y": ey})
+                vals = {"Coord": pt, "Point": {"0": pt}, "Line": ln}
+                ev = Ev(F, {("arg", 2): vals[ks[0]], ("arg", 3): vals[ks[1]]})
+                try:
+                    hit = ev.select_path(paths)
+                    got = float(ev.ev(hit[0].ret)) if len(hit) == 1 and hit[0].kind == "ret" else None
+                except (NoModel, TypeError, KeyError, ValueError) as e:
+                    bad = "not evaluable far from the origin: %s" % e
+                    break
+                k += 1
+                if got is None or not (abs(got - want) <= 1e-9 * max(1.0, want)):
+                    bad = "translated by (1e15, 2e15): distance((%s, %s), (%s, %s)-(%s, %s)) evaluates to %s in doubles, the exact distance is %.9g" % (px, py, sx, sy, ex_, ey, got, want)
+                    break
         if bad:
             rep.bad(rule, "small-pair:%s" % key, "%s: %s" % (key, bad), where=fn.loc())
         else:
